@@ -104,10 +104,10 @@ func (m *Manager) getEnabledOrPendingKeyVersion(ctx context.Context, parent stri
 				version = v
 			}
 		}
-		if len(vers.GetCryptoKeyVersions()) < keyPageSize {
+		pageToken = vers.GetNextPageToken()
+		if pageToken == "" {
 			break
 		}
-		pageToken = vers.GetNextPageToken()
 	}
 	if version == nil {
 		return nil, ErrNoKeyVersions
